@@ -191,6 +191,90 @@ theorem subscribed_msg (pre : Str) (m : Msg) (h0 : 0 ≤ m.cmd) (h4 : m.cmd ≤ 
   subscribed pre _ _ _ _ m.cmd h0 h4 (slash_not_mem_dec _) (slash_not_mem_dec _) (slash_not_mem_dec _)
     (slash_not_mem_dec _)
 
+/-! ### The prefixes as configured
+
+The gateway device publishes under exactly the configured in-prefix and listens under exactly the configured
+out-prefix.  `subscribed` and `write_topic` hold for every prefix, so they hold for the configured one; the theorems
+below say that no other text will do: a transport that subscribes / publishes under anything else than the configured
+prefix - the same text without a leading or trailing `/`, with a doubled `/` collapsed, stripped of blanks, in another
+case - hears none of the device's messages and publishes where the device does not listen. -/
+
+/-- **Heard only under the subscribed prefix.** If one of the subscriptions made under `p` (no level of `p` is the
+wildcard `+`, as in every legal topic name) matches a message published on `q/node/child/command/ack/type`, then `p` and
+`q` are the same text, level by level, zero-length levels included. -/
+theorem heard_only_under_subscribed_prefix (p q ln lc lk la lt : Str) (hp : ['+'] ∉ splitOn '/' p)
+    (hn : '/' ∉ ln) (hc : '/' ∉ lc) (hk : '/' ∉ lk) (ha : '/' ∉ la) (ht : '/' ∉ lt)
+    (h : ∃ f ∈ filters p, matchesFilter f (q ++ '/' :: joinWith '/' [ln, lc, lk, la, lt]) = true) : p = q := by
+  obtain ⟨f, hf, hm⟩ := h
+  have key : ∀ k : Char, k ≠ '/' →
+      matchesFilter (p ++ '/' :: joinWith '/' [['+'], ['+'], [k], ['+'], ['+']])
+        (q ++ '/' :: joinWith '/' [ln, lc, lk, la, lt]) = true → p = q := by
+    intro k hk' hm
+    simp only [matchesFilter, splitOn_prefix_partial] at hm
+    rw [splitOn_joinWith '/' _ _ (by
+          intro g hg
+          simp at hg
+          rcases hg with rfl | rfl | rfl | rfl | rfl <;> simp [Ne.symm hk']),
+      splitOn_joinWith '/' _ _ (by intro g hg; simp at hg; rcases hg with rfl | rfl | rfl | rfl | rfl <;> assumption)] at hm
+    have hlen := levelsMatch_length _ _ hm
+    simp only [List.length_append, List.length_cons, List.length_nil] at hlen
+    exact splitOn_injective '/' p q (levelsMatch_literal _ _ _ _ hp (by omega) hm).1
+  have t0 : "/+/+/0/+/+".toList = '/' :: joinWith '/' [['+'], ['+'], ['0'], ['+'], ['+']] := by decide
+  have t1 : "/+/+/1/+/+".toList = '/' :: joinWith '/' [['+'], ['+'], ['1'], ['+'], ['+']] := by decide
+  have t2 : "/+/+/2/+/+".toList = '/' :: joinWith '/' [['+'], ['+'], ['2'], ['+'], ['+']] := by decide
+  have t3 : "/+/+/3/+/+".toList = '/' :: joinWith '/' [['+'], ['+'], ['3'], ['+'], ['+']] := by decide
+  have t4 : "/+/+/4/+/+".toList = '/' :: joinWith '/' [['+'], ['+'], ['4'], ['+'], ['+']] := by decide
+  have e : filters p = [p ++ "/+/+/0/+/+".toList, p ++ "/+/+/1/+/+".toList, p ++ "/+/+/2/+/+".toList,
+      p ++ "/+/+/3/+/+".toList, p ++ "/+/+/4/+/+".toList] := by
+    simp [filters, Gen.mqttPartialTopics]
+  rw [e, t0, t1, t2, t3, t4] at hf
+  simp only [List.mem_cons, List.not_mem_nil, or_false] at hf
+  rcases hf with rfl | rfl | rfl | rfl | rfl
+  · exact key '0' (by decide) hm
+  · exact key '1' (by decide) hm
+  · exact key '2' (by decide) hm
+  · exact key '3' (by decide) hm
+  · exact key '4' (by decide) hm
+
+/-- **An altered prefix is deaf.** A transport whose subscriptions are made under `stored` while the gateway device
+publishes under `configured ≠ stored` receives none of the device's messages, whatever the command. -/
+theorem altered_in_prefix_is_deaf (stored configured : Str) (hne : stored ≠ configured)
+    (hp : ['+'] ∉ splitOn '/' stored) (m : Msg) :
+    ∀ f ∈ filters stored, matchesFilter f (topicOf configured m) = false := by
+  intro f hf
+  cases hm : matchesFilter f (topicOf configured m) with
+  | false => rfl
+  | true =>
+    exact absurd (heard_only_under_subscribed_prefix stored configured _ _ _ _ _ hp (slash_not_mem_dec _)
+      (slash_not_mem_dec _) (slash_not_mem_dec _) (slash_not_mem_dec _) (slash_not_mem_dec _) ⟨f, hf, hm⟩) hne
+
+/-- Every message with command 0-4 is heard **iff** the subscriptions are made under the configured in-prefix itself. -/
+theorem hears_configured_iff (stored configured : Str) (hp : ['+'] ∉ splitOn '/' stored) (m : Msg)
+    (h0 : 0 ≤ m.cmd) (h4 : m.cmd ≤ 4) :
+    (∃ f ∈ filters stored, matchesFilter f (topicOf configured m) = true) ↔ stored = configured := by
+  constructor
+  · intro h
+    exact heard_only_under_subscribed_prefix stored configured _ _ _ _ _ hp (slash_not_mem_dec _)
+      (slash_not_mem_dec _) (slash_not_mem_dec _) (slash_not_mem_dec _) (slash_not_mem_dec _) h
+  · rintro rfl
+    exact subscribed_msg stored m h0 h4
+
+/-- **An altered out-prefix publishes elsewhere.** The topic of a write determines the prefix it was built from: the
+publish lands on `<configured out-prefix>/node/child/command/ack/type` only if the transport uses the configured text. -/
+theorem write_topic_determines_prefix (stored configured : Str) (m : Msg) (h : C01.WF m)
+    (he : (toTopic stored (encode m)).map (·.1) = some (topicOf configured m)) : stored = configured := by
+  rw [write_topic stored m h] at he
+  simp only [Option.map_some, Option.some.injEq, topicOf] at he
+  exact List.append_cancel_right he
+
+/-- A prefix is determined by its levels: dropping a leading or trailing divider, or collapsing a doubled one, gives
+another prefix (hence, by the theorems above, other subscriptions and another publish topic). -/
+theorem leading_divider_matters (p : Str) : '/' :: p ≠ p := by
+  intro h; have := congrArg List.length h; simp at this
+
+theorem trailing_divider_matters (p : Str) : p ++ ['/'] ≠ p := by
+  intro h; have := congrArg List.length h; simp at this
+
 /-! ### The queue: arrival order, exactly once -/
 
 /-- **FIFO, exactly once.** For every interleaving of arrivals (messages and errors) and reads: what
@@ -468,6 +552,17 @@ example : toTopic "p".toList "1;2;1;0;49".toList = none := by decide
 example : matchesFilter "a/b/c/+/+/1/+/+".toList "a/b/c/1/2/1/0/49".toList = true := by decide
 example : matchesFilter "a/b/c/+/+/1/+/+".toList "a/b/c/1/2/5/0/49".toList = false := by decide
 example : matchesFilter "a/+/+/1/+/+".toList "a/b/c/1/2/1/0/49".toList = false := by decide
+/-- Zero-length levels are levels: a prefix with a leading / trailing / doubled divider and the same text without it. -/
+example : matchesFilter "/gw/+/+/1/+/+".toList "/gw/1/2/1/0/49".toList = true := by decide
+example : matchesFilter "gw/+/+/1/+/+".toList "/gw/1/2/1/0/49".toList = false := by decide
+example : matchesFilter "gw/+/+/1/+/+".toList "gw//1/2/1/0/49".toList = false := by decide
+example : matchesFilter "site/gw/+/+/1/+/+".toList "site//gw/1/2/1/0/49".toList = false := by decide
+example : (filters "/gw/".toList).any (fun f => matchesFilter f "/gw//1/2/3/0/11".toList) = true := by decide
+example : (filters "gw".toList).any (fun f => matchesFilter f "/gw//1/2/3/0/11".toList) = false := by decide
+example : (filters "".toList).any (fun f => matchesFilter f "/1/2/3/0/11".toList) = true := by decide
+example : toTopic "/gw/".toList (encode ⟨1, 2, 1, 0, 49, "x".toList⟩) = some ("/gw//1/2/1/0/49".toList, "x".toList, 0) := by
+  decide
+example : ['+'] ∉ splitOn '/' "/site//gw/".toList := by decide
 
 /-- A binary payload is undecodable; the next message still arrives. -/
 example : utf8Decode [0xff, 0xfe] = none := by decide
